@@ -12,6 +12,7 @@ Termination / no panic is totality of the model functions together with the unre
 model's fuel sentinel (`C04_total_*`); determinism holds because they are functions.
 -/
 import Anytype.Lemmas.ParserBytes
+import Anytype.Props.C01
 namespace Anytype
 
 /-! ### 1. totality: the fuel sentinel is unreachable; fuel monotonicity -/
@@ -406,3 +407,30 @@ open Anytype in
 #print axioms C04_utf8_reject_object
 open Anytype in
 #print axioms C04_file
+
+
+/-! ### every proper prefix of a serialised text is rejected (C04 ∘ C01) -/
+
+open Anytype in
+/-- "Every proper prefix of a text produced by List.String() is rejected with an error":
+for every well-formed list value, in every field order of its nested objects. -/
+theorem C04_cut_serial_list (hf : FmtContract) (xs : List JVal) (hw : (JVal.list xs).WF) :
+    ∀ p, p <+: encode (ser (.list xs)) → p ≠ encode (ser (.list xs)) →
+      ∃ e, parseListBytes p = .error e := by
+  obtain ⟨post, hs, hr⟩ := C01_consumes_all_list hf xs hw
+  exact C04_cut_list hs (hr _)
+
+open Anytype in
+theorem C04_cut_serial_object (hf : FmtContract) (kvs : List (Str × JVal)) (hw : (JVal.obj kvs).WF) :
+    ∀ p, p <+: encode (ser (.obj kvs)) → p ≠ encode (ser (.obj kvs)) →
+      ∃ e, parseObjectBytes p = .error e := by
+  obtain ⟨post, hs, hr⟩ := C01_consumes_all_object hf kvs hw
+  exact C04_cut_object hs (hr _)
+
+open Anytype in
+example : (JVal.list sampleList).WF := sampleList_WF
+
+open Anytype in
+#print axioms C04_cut_serial_list
+open Anytype in
+#print axioms C04_cut_serial_object
